@@ -54,3 +54,106 @@ Theorem C19_lattice_hypercube_weights_convex : forall clip as_list sizes x,
   qsum (hyper_weights clip as_list sizes x) == 1.
 Proof. exact hyper_weights_convex. Qed.
 Print Assumptions C19_lattice_hypercube_weights_convex.
+
+Theorem C19_kernel_gradient_unique : forall w K v g, (v < length K)%nat ->
+  (forall h, lin_eval w (set_nth v (nth v K 0 + h) K) - lin_eval w K == h * g) -> g == nth v w 0.
+Proof. exact lin_eval_gradient_unique. Qed.
+Print Assumptions C19_kernel_gradient_unique.
+
+(* Lattice, simplex interpolation: gather of the d+1 simplex vertices and a
+   weighted sum.  The kernel is any function of the flat index; the derivative
+   w.r.t. entry v is the total weight of the terms that gather v (which is what
+   the dense vector compared with TensorFlow contains), independent of K. *)
+Theorem C19_lattice_simplex_gradient_is_weights : forall clip sizes x K v h,
+  sp_eval (simplex_sparse clip sizes x) (fun u => K u + (if Z.eqb u v then h else 0))
+  - sp_eval (simplex_sparse clip sizes x) K == h * sp_weight (simplex_sparse clip sizes x) v.
+Proof. exact (fun clip sizes x => sp_eval_gradient (simplex_sparse clip sizes x)). Qed.
+Print Assumptions C19_lattice_simplex_gradient_is_weights.
+
+Theorem C19_lattice_simplex_dense_weights : forall clip sizes x v, (v < num_vertices sizes)%nat ->
+  nth v (simplex_weights clip sizes x) 0 == sp_weight (simplex_sparse clip sizes x) (Z.of_nat v).
+Proof. exact simplex_weights_nth. Qed.
+Print Assumptions C19_lattice_simplex_dense_weights.
+
+(* simplex weights are non-negative and sum to one (every rank, sizes >= 2,
+   clipped inputs anywhere / unclipped inputs in range; ties in the sort included) *)
+Theorem C19_lattice_simplex_weights_convex : forall clip sizes x, lattice_point_ok clip sizes x ->
+  (forall p, In p (simplex_sparse clip sizes x) -> 0 <= snd p) /\
+  qsum (map snd (simplex_sparse clip sizes x)) == 1.
+Proof. exact simplex_sparse_convex. Qed.
+Print Assumptions C19_lattice_simplex_weights_convex.
+
+(* PWLCalibration (fixed keypoints), including the cyclic fold-back of the last
+   height and missing-value imputation: the derivative of the output w.r.t.
+   kernel entry v is the model's weight vector entry, independent of K. *)
+Theorem C19_pwl_kernel_gradient : forall (cyclic : bool) m mo kps lens (K : list Q) x v h,
+  length kps = length lens -> K <> [] ->
+  length K = (if cyclic then length kps else S (length kps)) -> (v < length K)%nat ->
+  pwl_eval cyclic m mo kps lens (set_nth v (nth v K 0 + h) K) x - pwl_eval cyclic m mo kps lens K x
+  == h * nth v (pwl_kernel_weights cyclic m kps lens x) 0.
+Proof. exact pwl_kernel_gradient. Qed.
+Print Assumptions C19_pwl_kernel_gradient.
+
+(* CategoricalCalibration: the derivative w.r.t. bucket b is the indicator of
+   the (default-replaced) input index; zero everywhere for out-of-range input. *)
+Theorem C19_categorical_kernel_gradient : forall nb default i K b h, (b < nb)%nat -> (b < length K)%nat ->
+  lin_eval (cat_weights nb default i) (set_nth b (nth b K 0 + h) K) - lin_eval (cat_weights nb default i) K
+  == h * (if Z.eqb (Z.of_nat b) (cat_index nb default i) then 1 else 0).
+Proof. exact cat_kernel_gradient. Qed.
+Print Assumptions C19_categorical_kernel_gradient.
+
+(* Chain rule through grad_fn for the Kronecker-factored lattice output
+   bias + mean_t scale_t * prod_d <w_d(x_d), K_t[d]>: the gradients that
+   back-propagation delivers for a kernel entry and for a scale (the functions
+   compared with tf.GradientTape on every run) are the exact slopes of the
+   output, for every zero pattern among the factors. *)
+Theorem C19_chain_kernel : forall ws bias scales Ks t d k h,
+  (t < length scales)%nat -> (t < length Ks)%nat -> (d < length (nth t Ks []))%nat -> (d < length ws)%nat ->
+  (k < length (nth d (nth t Ks []) []))%nat -> (k < length (nth d ws []))%nat ->
+  kfl_out ws bias scales
+    (set_nth_g t (set_nth_g d (set_nth k (nth k (nth d (nth t Ks []) []) 0 + h) (nth d (nth t Ks []) [])) (nth t Ks [])) Ks)
+  - kfl_out ws bias scales Ks
+  == h * nth k (nth d (kfl_grad_kernel ws (length scales) (nth t scales 0) (nth t Ks [])) []) 0.
+Proof. exact kfl_out_kernel_gradient. Qed.
+Print Assumptions C19_chain_kernel.
+
+Theorem C19_chain_scale : forall ws bias scales Ks t h, (t < length scales)%nat -> (t < length Ks)%nat ->
+  kfl_out ws bias (set_nth t (nth t scales 0 + h) scales) Ks - kfl_out ws bias scales Ks
+  == h * kfl_grad_scale ws (length scales) (nth t Ks []).
+Proof. exact kfl_out_scale_gradient. Qed.
+Print Assumptions C19_chain_scale.
+
+(* inputs: if the interpolation weights of dimension d move affinely with the
+   input (w_d(x+h) = w_d(x) + h*dw, true inside a cell by C19_hat_slope), one
+   term of the output moves with slope scale * grad_fn_d * <dw, K[d]>. *)
+Theorem C19_chain_inputs : forall ws scale K d dw h,
+  (d < length K)%nat -> (d < length ws)%nat -> length (nth d ws []) = length dw ->
+  kfl_term (set_nth_g d (map2 (fun a s => a + h * s) (nth d ws []) dw) ws) scale K - kfl_term ws scale K
+  == h * (scale * nth d (grad_prod (kfl_dots ws K)) 0 * dot dw (nth d K [])).
+Proof. exact kfl_term_input_gradient. Qed.
+Print Assumptions C19_chain_inputs.
+
+Theorem C19_hat_slope : forall j x h k,
+  qnat j <= x -> x <= qnat j + 1 -> qnat j <= x + h -> x + h <= qnat j + 1 ->
+  hat (x + h) k - hat x k == h * hat_slope j k.
+Proof. exact hat_affine_in_cell. Qed.
+Print Assumptions C19_hat_slope.
+
+(* Boundary of the Lattice clause: the guard of the two *_weights_convex
+   theorems cannot be dropped.  With clip_inputs = False and an input outside
+   [0, size-1] the kernel gradient is still the weight vector
+   (C19_kernel_gradient_is_weights), but it is not a convex combination:
+   sizes [2], x = 3/2 gives weights [-1/2, 3/2]; sizes [3], x = 5/2 gives
+   weights summing to 1/2.  Both witnesses are replayed on the real layer by
+   the correspondence classes "*_noclip_outside". *)
+Theorem C19_lattice_unclipped_outside_nonneg_refuted :
+  exists sizes x, ~ lattice_point_ok false sizes x /\
+    exists a, In a (hyper_weights false false sizes x) /\ a < 0.
+Proof. exact unclipped_outside_negative. Qed.
+Print Assumptions C19_lattice_unclipped_outside_nonneg_refuted.
+
+Theorem C19_lattice_unclipped_outside_sum_refuted :
+  exists sizes x, ~ lattice_point_ok false sizes x /\
+    forall as_list, qsum (hyper_weights false as_list sizes x) == 1#2.
+Proof. exact unclipped_outside_mass_lost. Qed.
+Print Assumptions C19_lattice_unclipped_outside_sum_refuted.
